@@ -729,6 +729,29 @@ def sentinel(chk, crates):
             # the second test is only reached on the first test's equal edge: its equal edge is the sentinel edge
             rd = [((0xFF, 0xFF), "Range{0, 2} (bytewise)", tests[1][2], tests[1][3])]
             ok = True
+    if not rd:
+        # the same test as a slice pattern: `match <view of the input> { [0xff, 0xff] => .. }` switches on the bytes themselves
+        import re as _re
+        root = ("path", vd.root_name(1), ())
+        tests = []
+        for i in sorted(dec.reachable(0)):
+            t = dec.blocks[i]["term"]
+            if t["t"] != "switch":
+                continue
+            c = vd.operand(t["d"], i)
+            if not (c[0] == "proj" and c[2] and isinstance(c[2][-1], str) and _re.fullmatch(r"\[\d+\]", c[2][-1])):
+                continue
+            base = ("proj", c[1], tuple(c[2][:-1])) if len(c[2]) > 1 else c[1]
+            view = (0, None) if strip_ref(base) == root else _input_view(vd, base)
+            if view is None:
+                continue
+            for v_, tb_ in t["targets"]:
+                tests.append((int(view[0]) + int(c[2][-1][1:-1]), v_, i, tb_))
+        tests.sort()
+        if [(k, v) for k, v, _, _ in tests] == [(0, 0xFF), (1, 0xFF)] and \
+                _under_any(dec, [(tests[0][2], tests[0][3])], tests[1][2]):
+            rd = [((0xFF, 0xFF), "Range{0, 2} (slice pattern)", tests[1][2], tests[1][3])]
+            ok = True
     chk.require(ok, "C17-d/reader-sentinel", "PartialReversalReceiptNo::decode",
                 "reader recognises %s as the sentinel, specification says bytes FF FF at 0..2" % rd, "bytes[0..2] == [0xFF, 0xFF]", dec.sp())
 
